@@ -21,6 +21,20 @@ def rnd_bytes(r, n):
     return bytes(r.randrange(256) for _ in range(n))
 
 
+def rnd_key(r):
+    """16-byte key; a fifth of them with boundary bytes (0x00 / 0xFF at chosen positions, repeated bytes)"""
+    k = bytearray(rnd_bytes(r, 16))
+    c = r.randrange(10)
+    if c == 0:
+        k[r.choice([0, 5, 15])] = 0
+    elif c == 1:
+        k[r.randrange(16)] = 0
+        k[r.randrange(16)] = 0xFF
+    elif c == 2 and r.random() < 0.3:
+        k = bytearray([r.choice([0, 0xFF, 0x80])] * 16)
+    return bytes(k)
+
+
 def rnd_seed(r):
     n = r.choice([1, 3, 8, 20, 55, 56, 57, 63, 64, 65, 119, 120, 200, 255])
     return bytes(r.randrange(1, 256) for _ in range(n))
@@ -56,7 +70,7 @@ def enc_cases(ck, count, maxchunks=5, exhaustive_lengths=False):
             cm, hm = combos[i % 15]
             T = Ts[(i // 15) % len(Ts)] if n % 3 else r.choice(Ts)
             i += 1
-            res.append(EncCase(n, cm, hm, T, rnd_bytes(r, 16), rnd_seed(r), rnd_bytes(r, n), "len=%s" % lencls(n)))
+            res.append(EncCase(n, cm, hm, T, rnd_key(r), rnd_seed(r), rnd_bytes(r, n), "len=%s" % lencls(n)))
         return res
     i = 0
     while len(res) < count:
@@ -64,7 +78,7 @@ def enc_cases(ck, count, maxchunks=5, exhaustive_lengths=False):
         cm, hm = combos[(i * 7 + i // 15) % 15]
         T = Ts[(i // 3) % len(Ts)]
         i += 1
-        res.append(EncCase(n, cm, hm, T, rnd_bytes(r, 16), rnd_seed(r), rnd_bytes(r, n), "len=%s" % lencls(n)))
+        res.append(EncCase(n, cm, hm, T, rnd_key(r), rnd_seed(r), rnd_bytes(r, n), "len=%s" % lencls(n)))
     return res
 
 
